@@ -93,7 +93,59 @@ def shards(tier):
             out.append({'mode': 'ct', 'fi': fi})
     for pi in range(len(PERIODS)):
         out.append({'mode': 'reject', 'pi': pi})
+    for i in range(len(collision_cases())):
+        out.append({'mode': 'collide', 'i': i})
     return out
+
+
+def collision_cases():
+    """(text, formula in samples): two timed nodes over the SAME operand whose bounds have the same digits but different units (period 1 s) -
+    they denote different durations and must not be confused anywhere (printed names key the online operations)"""
+    X, Y, px = F.X, F.Y, F.PX
+    out = []
+    for op in ('once', 'historically'):
+        for neg in (False, True):
+            for (d1, u1, k1), (d2, u2, k2) in ((('1000', 'ms', 1), ('1000', 's', 1000)), (('2', 's', 2), ('2', 'ms', None)), (('3000', 'ms', 3), ('3000', 'us', None))):
+                for where in ('end', 'both'):
+                    if k1 is None or k2 is None:
+                        continue
+                    b1 = '[0,%s%s]' % (d1, u1) if where == 'end' else '[0%s,%s%s]' % (u1, d1, u1)
+                    b2 = '[0,%s%s]' % (d2, u2) if where == 'end' else '[0%s,%s%s]' % (u2, d2, u2)
+                    a = '(%s%s x)' % (op, b1)
+                    b = '(%s%s x)' % (op, b2)
+                    con = 'and' if op == 'once' else 'or'     # the connective under which the narrower window decides
+                    text = 'out = %s and (not %s)' % (a, b) if neg else 'out = %s %s %s' % (b, con, a)
+                    fa, fb = (op, (0, k1), X), (op, (0, k2), X)
+                    f = ('and', fa, ('not', fb)) if neg else (con, fb, fa)
+                    out.append((text, f))
+    out.append(('out = (x since[0,1000ms] y) or ((x since[0,1000s] y) and (x >= 0))',
+                ('or', ('since', (0, 1), X, Y), ('and', ('since', (0, 1000), X, Y), px))))
+    out.append(('out = (eventually[0,1000ms] x) and (not (eventually[0,1000s] x))',
+                ('and', ('eventually', (0, 1), X), ('not', ('eventually', (0, 1000), X)))))
+    return out
+
+
+def run_collide(shard, tier, res, mod):
+    text, f = collision_cases()[shard['i']]
+    vs = sorted(F.fvars(f))
+    n = 4 if len(vs) == 1 else 3
+    res.formulas += 1
+    plans = [('dt_off', False)] + ([('dt_on', False)] if F.past_only(f) else [])
+    for kind, pastify in plans:
+        for t in F.traces(n, F.V3 if len(vs) == 1 else F.V2, len(vs)):
+            w = F.trace_dict(t, vs)
+            res.evaluations += 1
+            case = {'mode': 'collide', 'formula': F.to_json(f), 'spec': text, 'vars': vs, 'unit': 's', 'period': [1, 's'], 'kind': kind,
+                    'pastify': pastify, 'trace': w}
+            msgs = replay(case)
+            if msgs:
+                res.violation(mod, case, msgs[0])
+                res.outcomes['%s mismatch' % kind] += 1
+            else:
+                res.outcomes['agree'] += 1
+                res.nontrivial += 1
+            res.digest(text, kind, t, bool(msgs))
+    res.sample({'same_digits_different_units': text}, 1)
 
 
 def spell_formula(f, period_ns, du, choice):
@@ -284,7 +336,7 @@ def ct_case(case, f=None):
 
 def run_shard(shard, tier, res):
     mod = sys.modules[__name__]
-    {'dt': run_dt, 'ct': run_ct, 'reject': run_reject}[shard['mode']](shard, tier, res, mod)
+    {'dt': run_dt, 'ct': run_ct, 'reject': run_reject, 'collide': run_collide}[shard['mode']](shard, tier, res, mod)
 
 
 def replay(case):
